@@ -33,7 +33,8 @@ import hv
 from hv import Case
 
 SPEC = {
-    "lean_modules": ["Honeycomb.Props.C19", "Honeycomb.Lemmas.Rounding", "Honeycomb.Props.C19b"],
+    "lean_modules": ["Honeycomb.Props.C19", "Honeycomb.Lemmas.Rounding", "Honeycomb.Props.C19b",
+                     "Honeycomb.Lemmas.RoundingRange", "Honeycomb.Props.C19c"],
     "required_theorems": [
         "C19_v2_sub_self", "C19_v2_add_sub_cancel", "C19_v2_addAssign_eq", "C19_v2_subAssign_eq",
         "C19_v3_subAssign_eq", "C19_v2_dot_comm", "C19_v3_dot_comm",
@@ -52,6 +53,10 @@ SPEC = {
         "C19b_roundModel", "C19b_roundModel_f64", "C19b_roundModel_f32", "C19b_rnd_odd", "C19b_rnd_monotone",
         "C19b_rep", "C19b_v2_sub_self", "C19b_v2_add_sub_bound", "C19b_orient_sign", "C19b_v3_cross_dot_bound",
         "C19b_v3_cross_antisymm", "C19b_p2_average_between",
+        # round 3: bounded exponent range (rndB): no overflow / underflow under explicit magnitude bounds
+        "rndB_eq_rnd", "rndB_of_G", "C19c_sub", "C19c_add", "C19c_mul", "C19c_div", "C19c_addsub", "C19c_dot2",
+        "C19c_dot3", "C19c_cross", "C19c_orient", "C19c_avg", "C19c_crossDot", "C19c_orient_f64", "C19c_orient_f32",
+        "C19c_f64_on_grid", "C19c_f32_on_grid",
     ],
     "trusted_base": [
         "Lean 4.33 kernel; axioms propext, Classical.choice, Quot.sound only",
@@ -84,8 +89,12 @@ SPEC = {
         "exponent): validated exactly by the flop stream (python definition on every sample, the Lean definition on a "
         "sub-sample), not proved. Given that, every C19_fl_* theorem is unconditional (Props/C19b: RoundModel (rnd p) 2^-p, "
         "rnd odd, monotone, exact on p-bit numbers - all proved)",
-        "overflow, underflow and subnormal results are excluded (rnd has an unbounded exponent range), as in the "
-        "property's quantifier; nothing is claimed there",
+        "overflow / underflow: Props/C19c proves that with the BOUNDED rounding rndB (binary64 / binary32 exponent range, "
+        "gradual underflow, overflow = none) the operators +, -, *, dot, cross, orientation, (v+u)-v, average, (a x b).w never "
+        "leave the normal range and equal the unbounded-arithmetic value when the coordinates are multiples of 2^g with "
+        "|x| <= 2^h under explicit conditions (e.g. binary64 floats with 2^-458 <= |x| <= 2^510 or 0 for the orientation "
+        "product); outside those bounds nothing is claimed. Scalar division only as a single quotient (C19c_div, partial); "
+        "unit_dir / normal_dir (sqrt, hypot) not covered",
         "Sterbenz-style exact subtraction is not proved (not needed: fl(v-v)=0 follows from rnd 0 = 0, the (v+u)-v bound "
         "from the relative error)",
         "bit-for-bit clauses about the compiled code (compound = binary, dot symmetric, average symmetric): proved for "
